@@ -638,6 +638,10 @@ func (mw *mcastWorld) exec(f []string) {
 		switch s.kind {
 		case "raw":
 			err := syscall.Sendto(s.fd, payload, 0, dst)
+			for i := 0; err == syscall.EAGAIN && i < 50; i++ { // send buffer full (earlier fragments still on the wire)
+				waitReady(s.fd, unix.POLLOUT, 20)
+				err = syscall.Sendto(s.fd, payload, 0, dst)
+			}
 			n := len(payload)
 			if err != nil {
 				n = 0
